@@ -53,7 +53,7 @@ class RaiseSig(Exception):
 
 import re as _re
 
-_AXSYM = _re.compile(r"\bcnt_[a-z]+\b")
+_AXSYM = _re.compile(r"\b(?:cnt_[a-z]+|lcs|gsum_[a-z]+)\b")
 
 
 class Obligation:
@@ -268,6 +268,13 @@ def pack(ctx: Ctx, v, ty: Ty):
     if isinstance(ty, Abs):
         if isinstance(v, SV) and v.ty == ty:
             return v.t
+        if ty.key == "Any":
+            # the universal element sort of containers whose element type is not declared: injection of any typed value
+            t = ty_of(v)
+            if t is not None and not isinstance(v, (SList, SDict, SSet)):
+                f = z3.Function("any_of_" + str(sort_of(t)), sort_of(t), sort_of(ty))
+                return f(pack(ctx, v, t))
+            return z3.Const(ctx.fresh_name("any"), sort_of(ty))
         raise Unsupported(f"cannot pack {v!r} as {ty}")
     if isinstance(ty, TupleT):
         if isinstance(v, tuple) and len(v) == len(ty.elems):
